@@ -102,11 +102,12 @@ def cases(tier, seed, rnd):
             if tier == 'quick' and form == 'min' and ci not in (0, 2, 5):
                 continue
             cs.append(dict(k='ME', name='chainE%d%s' % (ci, form)))
+    cs.append(dict(k='EX'))
     return cs
 
 
 def run_case(case, ses):
-    {'S': run_S, 'PW': run_PW, 'T': run_T, 'bilinear': run_bilinear, 'M': run_M, 'ME': run_ME}[case['k']](case, ses)
+    {'S': run_S, 'PW': run_PW, 'T': run_T, 'bilinear': run_bilinear, 'M': run_M, 'ME': run_ME, 'EX': run_EX}[case['k']](case, ses)
 
 
 def run_ME(case, ses):
@@ -555,8 +556,97 @@ def run_bilinear(case, ses):
         return [('dro dec*dec', lambda: x * y), ('dro rand*rand', lambda: z * u), ('dro adaptive*rand', lambda: a * z),
                 ('dro adaptive@rand', lambda: a @ z), ('dro rand@adaptive', lambda: z @ a), ('dro rand*adaptive', lambda: z * a),
                 ('dro dec@dec', lambda: x @ y)]
+    def t_chains():
+        # "also after any chain of scalar multiplications, negations and affine additions": the decision rule stays a
+        # decision rule, its product with a random variable stays refused
+        out = []
+        forms = [('2*', lambda a, x: 2.0 * a), ('-', lambda a, x: -a), ('+1', lambda a, x: a + 1.0), ('*0.5 (right)', lambda a, x: a * 0.5),
+                 ('+static', lambda a, x: a + x), ('static-', lambda a, x: x - a), ('2*(.+static)', lambda a, x: 2.0 * (a + x)),
+                 ('-(2*.)+1', lambda a, x: -(2.0 * a) + 1.0), ('[::-1]', lambda a, x: a[::-1]),
+                 ('3*.[0:2]', lambda a, x: 3.0 * a[0:2]), ('reshape', lambda a, x: (2.0 * a).reshape((2,)))]
+        prods = [('*z', lambda e, z: e * z), ('z*', lambda e, z: z * e), ('@z', lambda e, z: e @ z), ('z@', lambda e, z: z @ e)]
+        for front in ('ro', 'dro'):
+            for fn_, ff in forms:
+                for pn, pf in prods:
+                    def mk(front=front, ff=ff, pf=pf):
+                        if front == 'ro':
+                            m = ro.Model()
+                            x = m.dvar(2)
+                            z = m.rvar(2)
+                            a = m.ldr(2)
+                            a.adapt(z)
+                        else:
+                            m = dro.Model(2)
+                            x = m.dvar(2)
+                            z = m.rvar(2)
+                            a = m.dvar(2)
+                            a.adapt(z)
+                        e = ff(a, x)            # building the chain itself is legal ...
+                        return lambda: pf(e, z)  # ... multiplying it by the random variable is not
+                    out.append(('%s rule (%s) %s' % (front, fn_, pn), mk))
+        return out
+
+    def t_slices():
+        # affine adaptation declared through SLICES of the decision (the documented idiom x[:2].adapt(z[:2])): the product of
+        # an adaptive entry with a random variable must be refused as well - at the latest when the model is formulated
+        from rsome import E
+
+        def base():
+            m = dro.Model(2)
+            z = m.rvar(2)
+            y = m.dvar(2)
+            F = m.ambiguity()
+            F.suppset(z >= 0, z <= 1)
+            F.exptset(E(z) == 0.5)
+            return m, z, y, F
+
+        def finish(m, F, e):
+            m.maxinf(E(e), F)
+            m.do_math()
+
+        def v1():
+            m, z, y, F = base()
+            y[0].adapt(z[0])
+            finish(m, F, y[0] * z[0])
+
+        def v2():
+            m, z, y, F = base()
+            y[0].adapt(z[0])
+            finish(m, F, (y * z).sum())
+
+        def v3():
+            m, z, y, F = base()
+            ys = y[0]
+            y.adapt(z)
+            finish(m, F, ys * z[0])
+
+        def v4():
+            m, z, y, F = base()
+            e = 2.0 * y
+            y.adapt(z)
+            finish(m, F, e[0] * z[0])
+
+        def v5():
+            m, z, y, F = base()
+            y.adapt(z)
+            x = m.dvar()
+            finish(m, F, (x + y[:][0]) * z[0])
+
+        def v6():
+            m, z, y, F = base()
+            y[1:].adapt(z[1:])
+            finish(m, F, (3.0 * y[1:] + 1.0)[0] * z[1])
+        return [('dro slice-adapt y[0]*z[0]', v1), ('dro slice-adapt (y*z).sum()', v2), ('dro pre-created slice ys*z[0]', v3),
+                ('dro expression built before adapt()', v4), ('dro slice of a slice (x + y[:][0])*z[0]', v5),
+                ('dro slice-adapt scaled (3*y[1:]+1)[0]*z[1]', v6)]
+
     with quiet():
-        tests = t_ro() + t_dro()
+        tests = t_ro() + t_dro() + t_slices()
+        for tag, mk in t_chains():
+            try:
+                tests.append((tag, mk()))
+            except Exception as e:
+                raise HarnessError('C10 bilinear: legal chain %s could not be built: %s' % (tag, e))
     for tag, fn in tests:
         ses.stats.obligations += 1
         ses.stats.kinds['bilinear-raises'] = ses.stats.kinds.get('bilinear-raises', 0) + 1
@@ -573,6 +663,93 @@ def run_bilinear(case, ses):
                     dict(k='bilinear', tag=tag), 'rsv.props.c10:replay')
     ses.stats.nontrivial.add('bilinear-ro')
     ses.stats.nontrivial.add('bilinear-dro')
+
+
+# ------------------------------------------------------------------ convex atoms combined with expectations (dro)
+EX_ATOMS = ['abs', 'norm1', 'norminf', 'maxof']
+EX_FORMS = ['atom(x) + E(y) <= t', 'E(y) + atom(x) <= t', '2*atom(x) + E(y) - t <= 0', 'atom(E(y)) <= t', 'minsup(atom(x) + E(y))',
+            'atom(x) <= t - E(y)']
+
+
+def ex_model(atom, form, reference):
+    """Two scenarios with fixed probabilities (1/2, 1/2), y event-wise with y_s >= z on supports [0,1] and [2,3] (so
+    y_0 >= 1, y_1 >= 3, E(y) >= 2), x in [2, 3]^2.  `reference` writes E(y) through a static variable e with E(y - e) == 0,
+    which takes the expectation outside the convex expression; otherwise the form is written as it stands."""
+    from rsome import dro, E
+    import rsome as rso
+    m = dro.Model(2)
+    z = m.rvar()
+    x = m.dvar(2)
+    y = m.dvar()
+    t = m.dvar()
+    y.adapt(0)
+    y.adapt(1)
+    F = m.ambiguity()
+    F[0].suppset(z >= 0, z <= 1)
+    F[1].suppset(z >= 2, z <= 3)
+    F.probset(m.p == 0.5)
+    f = {'abs': lambda v: abs(v).sum() if False else abs(v[0] - 0.5 * v[1]), 'norm1': lambda v: rso.norm(v, 1),
+         'norminf': lambda v: rso.norm(v, 'inf'), 'maxof': lambda v: rso.maxof(v[0], 2.0 * v[1] - 3.0, 1.0 - v[0])}[atom]
+    if reference:
+        e = m.dvar()
+        m.st(E(y - e) == 0)
+        Ey = e
+    else:
+        Ey = E(y)
+    if form == 'minsup(atom(x) + E(y))':
+        m.minsup(f(x) + Ey, F)
+    else:
+        m.minsup(t, F)
+        if form == 'atom(x) + E(y) <= t':
+            m.st(f(x) + Ey <= t)
+        elif form == 'E(y) + atom(x) <= t':
+            m.st(Ey + f(x) <= t)
+        elif form == '2*atom(x) + E(y) - t <= 0':
+            m.st(2.0 * f(x) + Ey - t <= 0)
+        elif form == 'atom(x) <= t - E(y)':
+            m.st(f(x) <= t - Ey)
+        else:
+            g = {'abs': lambda v: abs(v), 'norm1': lambda v: rso.norm(v + x, 1), 'norminf': lambda v: rso.norm(v - x, 'inf'),
+                 'maxof': lambda v: rso.maxof(v, 4.0 - v)}[atom]
+            m.st(g(Ey) <= t)
+    m.st(y >= z, y <= 10, x >= 2, x <= 3, t >= -50, t <= 50)
+    return m
+
+
+def run_EX(case, ses):
+    """An expectation inside or added to a convex atom: the dro front end compiles convex constraints scenario by scenario.
+    Either the combination is refused when it is written / handed to the model, or the compiled program has the exact
+    optimum of the same model written with the expectation taken outside (both programs compiled by RSOME, optima by z3)."""
+    from ..cprog import CProg
+    for atom in EX_ATOMS:
+        for form in EX_FORMS:
+            label = 'EX/%s/%s' % (atom, form)
+            ses.stats.obligations += 1
+            ses.stats.kinds['expectation-with-atom'] = ses.stats.kinds.get('expectation-with-atom', 0) + 1
+            try:
+                with quiet():
+                    P = CProg(ex_model(atom, form, False).do_math())
+            except Exception:
+                ses.stats.kinds['expectation-with-atom-refused'] = ses.stats.kinds.get('expectation-with-atom-refused', 0) + 1
+                ses.stats.discharged += 1
+                continue
+            with quiet():
+                R = CProg(ex_model(atom, form, True).do_math())
+            ses.stats.programs += 2
+            vp, vr = P.z3vars('p'), R.z3vars('r')
+            sp_, op_ = ses.optimum(P.constraints(vp), P.obj_term(vp), label=label)
+            sr_, or_ = ses.optimum(R.constraints(vr), R.obj_term(vr), label=label + '/ref')
+            if sr_ != 'optimal':
+                raise HarnessError('C10 EX: reference model %s is %s' % (label, sr_))
+            if 'unknown' in (sp_,):
+                ses.stats.undecided += 1
+            elif (sp_, op_) == (sr_, or_):
+                ses.stats.discharged += 1
+                ses.stats.nontrivial.add(label)
+            else:
+                finding(ses, 'C10:EX:%s:%s' % (atom, form), 'dro: %s with atom %s is accepted but its compiled program has optimum %s (%s); '
+                        'with the expectation written outside the atom (E(y - e) == 0) the optimum is %s'
+                        % (form, atom, op_, sp_, or_), dict(k='EX', atom=atom, form=form), 'rsv.props.c10:replay')
 
 
 # ------------------------------------------------------------------ replay
